@@ -458,7 +458,7 @@ def solve_text(args):
     then z3 gets the rest of the budget. Only `unsat` discharges, only `sat` refutes."""
     smt2, timeout_ms = args
     t0 = time.time()
-    cv = Cvc5Job(smt2, max(2, timeout_ms // 1000)) if ("String" in smt2 or "forall" in smt2) else None
+    cv = Cvc5Job(smt2, max(2, timeout_ms // 1000)) if ("String" in smt2 or "forall" in smt2 or "str." in smt2 or "re." in smt2) else None
     z3ver = "z3-" + z3.get_version_string()
 
     def run_z3(ms):
